@@ -670,7 +670,7 @@ func chainPart(thorough bool) *result {
 
 func main() {
 	tier := flag.String("tier", "quick", "")
-	_ = flag.String("prop", "C02", "")
+	propFlag := flag.String("prop", "C02", "C02, or C08 for the bad-work / bad-bits verdict parts only")
 	_ = flag.String("replay", "", "")
 	mine := flag.Bool("mine-fork", false, "find the nonce of the fork fixture header (one-off)")
 	mineB := flag.Bool("mine-boundary", false, "find the nonce of the activation-boundary fixture header (one-off)")
@@ -692,14 +692,24 @@ func main() {
 	thorough := *tier == "thorough"
 	total := newResult()
 	parts := map[string]*result{}
+	// C08 (every submission gets the reference verdict) uses the parts in which real proof of work
+	// is offered with the right and the wrong bits on main and side branches: the "bad work or
+	// bits" verdict depends on the submitted header's own branch, not on the reported one
+	c08 := map[string]bool{"own-branch-target": true, "activation-boundary": true, "demoted-real-chain": true, "position-in-tree": true}
 	for _, p := range []struct {
 		name string
 		f    func(bool) *result
 	}{{"target-function", targetPart}, {"target-on-pruned-branch", prunedPart}, {"bits-decoding", bitsPart}, {"real-chain", chainPart}, {"own-branch-target", forkPart}, {"activation-boundary", boundaryPart}, {"demoted-real-chain", demotedPart}, {"position-in-tree", positionPart}, {"small-number-arithmetic", precisionPart}, {"mark-unmark-in-pruned-real-chain", markPrunedPart}} {
+		if *propFlag == "C08" && !c08[p.name] {
+			continue
+		}
 		t0 := time.Now()
 		r := p.f(thorough)
+		for i := range r.vs {
+			r.vs[i].Prop = *propFlag
+		}
 		parts[p.name] = r
-		fmt.Fprintf(os.Stderr, "C02 %-16s evaluations=%d violations=%d %.1fs\n", p.name, r.evaluations, len(r.vs), time.Since(t0).Seconds())
+		fmt.Fprintf(os.Stderr, "%s %-16s evaluations=%d violations=%d %.1fs\n", *propFlag, p.name, r.evaluations, len(r.vs), time.Since(t0).Seconds())
 		total.merge(r)
 	}
 	var keys []string
@@ -714,7 +724,11 @@ func main() {
 	if len(total.samples) > 14 {
 		total.samples = total.samples[:14]
 	}
-	ev := &mc.Evidence{PropertyID: "C02", Tier: *tier, Level: "exploration",
+	level := "exploration"
+	if *propFlag == "C08" {
+		level = "model_checking" // merged into the hdrmc record of C08, whose level is the one claimed
+	}
+	ev := &mc.Evidence{PropertyID: *propFlag, Tier: *tier, Level: level,
 		Coverage: map[string]any{
 			"evaluations":         total.evaluations,
 			"distinct_nontrivial": total.nontrivial,
